@@ -1674,3 +1674,379 @@ pub fn promise_adapters(a: &ShardArgs, r: &mut Rng) {
     out::count("callbacks_ok_promise_dropped", drops_ok);
     compare(a, "promise_completion", "all", &got, &want);
 }
+
+// ---- K4: request, command and dead-band builders against the native builders --------------------
+
+use dnp3::master::{CommandBuilder, CommandSupport, DeadBandHeader, Headers, ReadHeader};
+
+fn native_variation_by_name() -> std::collections::BTreeMap<String, Variation> {
+    let mut m = std::collections::BTreeMap::new();
+    for v in all_variations() {
+        let txt = format!("{v:?}");
+        if txt.contains('(') {
+            // variations with a payload (group 0 attributes, octet strings of a given length) are not plain enumeration values
+            continue;
+        }
+        m.insert(norm(&v), v);
+    }
+    m
+}
+
+pub fn builders(a: &ShardArgs, r: &mut Rng, rounds: usize) {
+    let by_name = native_variation_by_name();
+    let ffi_vars: Vec<(ffi::Variation, Variation)> = super::variants::<ffi::Variation>()
+        .into_iter()
+        .filter_map(|f| by_name.get(&norm(&f)).map(|n| (f, *n)))
+        .collect();
+    out::count("builder_variations_paired", ffi_vars.len() as u64);
+    let hex = |b: &Option<Vec<u8>>| match b {
+        Some(b) => b.iter().map(|x| format!("{x:02x}")).collect::<String>(),
+        None => "<not encodable>".into(),
+    };
+    for _ in 0..rounds {
+        // ---- requests
+        unsafe {
+            let mut native = Headers::new();
+            let mut trace: Vec<String> = vec![];
+            let (fv, nv) = r.pick(&ffi_vars).clone();
+            let req = match r.below(7) {
+                0 => {
+                    let c = [r.bool(), r.bool(), r.bool(), r.bool()];
+                    trace.push(format!("new_class {c:?}"));
+                    for (k, v) in [
+                        (1, Variation::Group60Var2),
+                        (2, Variation::Group60Var3),
+                        (3, Variation::Group60Var4),
+                        (0, Variation::Group60Var1),
+                    ] {
+                        if c[k] {
+                            native.push_read_header(ReadHeader::all_objects(v));
+                        }
+                    }
+                    crate::request_new_class(c[0], c[1], c[2], c[3])
+                }
+                1 => {
+                    trace.push(format!("new_all_objects {fv:?}"));
+                    native.push_read_header(ReadHeader::all_objects(nv));
+                    crate::request_new_all_objects(fv)
+                }
+                2 => {
+                    let (s, e) = (r.u8(), r.u8());
+                    trace.push(format!("new_one_byte_range {fv:?} {s} {e}"));
+                    native.push_read_header(ReadHeader::one_byte_range(nv, s, e));
+                    crate::request_new_one_byte_range(fv, s, e)
+                }
+                3 => {
+                    let (s, e) = (r.u16(), r.u16());
+                    trace.push(format!("new_two_byte_range {fv:?} {s} {e}"));
+                    native.push_read_header(ReadHeader::two_byte_range(nv, s, e));
+                    crate::request_new_two_byte_range(fv, s, e)
+                }
+                4 => {
+                    let c = r.u8();
+                    trace.push(format!("new_one_byte_limited_count {fv:?} {c}"));
+                    native.push_read_header(ReadHeader::one_byte_limited_count(nv, c));
+                    crate::request_new_one_byte_limited_count(fv, c)
+                }
+                5 => {
+                    let c = r.u16();
+                    trace.push(format!("new_two_byte_limited_count {fv:?} {c}"));
+                    native.push_read_header(ReadHeader::two_byte_limited_count(nv, c));
+                    crate::request_new_two_byte_limited_count(fv, c)
+                }
+                _ => {
+                    trace.push("create".into());
+                    crate::request_create()
+                }
+            };
+            for _ in 0..r.range(0, 5) {
+                let (fv, nv) = r.pick(&ffi_vars).clone();
+                match r.below(9) {
+                    0 => {
+                        let (s, e) = (r.u8(), r.u8());
+                        trace.push(format!("add_one_byte_range {fv:?} {s} {e}"));
+                        native.push_read_header(ReadHeader::one_byte_range(nv, s, e));
+                        crate::request::request_add_one_byte_range_header(req, fv, s, e);
+                    }
+                    1 => {
+                        let (s, e) = (r.u16(), r.u16());
+                        trace.push(format!("add_two_byte_range {fv:?} {s} {e}"));
+                        native.push_read_header(ReadHeader::two_byte_range(nv, s, e));
+                        crate::request::request_add_two_byte_range_header(req, fv, s, e);
+                    }
+                    2 => {
+                        trace.push(format!("add_all_objects {fv:?}"));
+                        native.push_read_header(ReadHeader::all_objects(nv));
+                        crate::request::request_add_all_objects_header(req, fv);
+                    }
+                    3 => {
+                        let c = r.u8();
+                        trace.push(format!("add_one_byte_limited_count {fv:?} {c}"));
+                        native.push_read_header(ReadHeader::one_byte_limited_count(nv, c));
+                        crate::request_add_one_byte_limited_count_header(req, fv, c);
+                    }
+                    4 => {
+                        let c = r.u16();
+                        trace.push(format!("add_two_byte_limited_count {fv:?} {c}"));
+                        native.push_read_header(ReadHeader::two_byte_limited_count(nv, c));
+                        crate::request_add_two_byte_limited_count_header(req, fv, c);
+                    }
+                    5 => {
+                        let (var, set) = (r.u8(), r.u8());
+                        trace.push(format!("add_specific_attribute var{var} set{set}"));
+                        native.push_read_header(ReadHeader::one_byte_range(Variation::Group0(var), set, set));
+                        crate::request::request_add_specific_attribute(req, var, set);
+                    }
+                    6 => {
+                        let (var, set, val) = (r.u8(), r.u8(), r.u64() as u32);
+                        trace.push(format!("add_uint_attribute var{var} set{set} {val}"));
+                        native.push_attr(dnp3::app::attr::OwnedAttribute::new(
+                            dnp3::app::attr::AttrSet::new(set),
+                            var,
+                            dnp3::app::attr::OwnedAttrValue::UnsignedInt(val),
+                        ));
+                        crate::request::request_add_uint_attribute(req, var, set, val);
+                    }
+                    7 => {
+                        let (var, set) = (r.u8(), r.u8());
+                        let text = format!("name-{}", r.u16());
+                        trace.push(format!("add_string_attribute var{var} set{set} {text}"));
+                        native.push_attr(dnp3::app::attr::OwnedAttribute::new(
+                            dnp3::app::attr::AttrSet::new(set),
+                            var,
+                            dnp3::app::attr::OwnedAttrValue::VisibleString(text.clone()),
+                        ));
+                        let c = std::ffi::CString::new(text).unwrap();
+                        crate::request::request_add_string_attribute(req, var, set, &c);
+                    }
+                    _ => {
+                        let (t, i) = (
+                            if r.bool() { 0 } else { r.u64() & 0x0000_FFFF_FFFF_FFFF },
+                            if r.bool() { 0 } else { r.u64() as u32 },
+                        );
+                        trace.push(format!("add_time_and_interval {t} {i}"));
+                        native.push_freeze_interval(FreezeInterval::new(Timestamp::new(t), i));
+                        crate::request::request_add_time_and_interval(req, t, i);
+                    }
+                }
+            }
+            let got_h = dnp3::verif::util::headers_bytes(&(*req).build_headers());
+            let want_h = dnp3::verif::util::headers_bytes(&native);
+            let got_r = dnp3::verif::util::read_request_bytes(&(*req).build_read_request());
+            let want_r = dnp3::verif::util::read_request_bytes(&native.to_read_request());
+            crate::request_destroy(req);
+            out::eval(1);
+            if got_h != want_h || got_r != want_r {
+                viol(
+                    a,
+                    "builder_mismatch",
+                    &format!("request|{}", trace.last().map(|t| t.split(' ').next().unwrap_or("")).unwrap_or("")),
+                    format!(
+                        "request built through the binding entry points {trace:?} encodes as {} / READ {}; the native builder gives {} / READ {}",
+                        hex(&got_h),
+                        hex(&got_r),
+                        hex(&want_h),
+                        hex(&want_r)
+                    ),
+                );
+            } else {
+                out::count("builders_ok_request", 1);
+            }
+        }
+        // ---- command sets
+        unsafe {
+            let set = crate::command_set_create();
+            let mut native = CommandBuilder::new();
+            let mut trace: Vec<String> = vec![];
+            let tccs = super::variants::<ffi::TripCloseCode>();
+            let ops = super::variants::<ffi::OpType>();
+            for _ in 0..r.range(1, 7) {
+                let wide = r.bool();
+                let (i8, i16) = (r.u8(), r.u16());
+                match r.below(6) {
+                    0 => {
+                        let (tcc, op) = (r.pick(&tccs).clone(), r.pick(&ops).clone());
+                        let (clear, queue, count, on, off) = (r.bool(), r.bool(), r.u8(), r.u64() as u32, r.u64() as u32);
+                        let f = ffi::Group12Var1 {
+                            code: ffi::ControlCode {
+                                tcc: tcc.clone().into(),
+                                clear,
+                                queue,
+                                op_type: op.clone().into(),
+                            },
+                            count,
+                            on_time: on,
+                            off_time: off,
+                        };
+                        // the same control built natively from its wire octet
+                        let tcc_bits: u8 = match tcc {
+                            ffi::TripCloseCode::Nul => 0,
+                            ffi::TripCloseCode::Close => 1,
+                            ffi::TripCloseCode::Trip => 2,
+                            ffi::TripCloseCode::Reserved => 3,
+                        };
+                        let op_bits: u8 = match op {
+                            ffi::OpType::Nul => 0,
+                            ffi::OpType::PulseOn => 1,
+                            ffi::OpType::PulseOff => 2,
+                            ffi::OpType::LatchOn => 3,
+                            ffi::OpType::LatchOff => 4,
+                        };
+                        let octet = (tcc_bits << 6) | ((clear as u8) << 5) | ((queue as u8) << 4) | op_bits;
+                        let n = Group12Var1::new(dnp3::verif::util::control_code_from(octet), count, on, off);
+                        trace.push(format!("g12v1 wide{wide} code{octet:#04x}"));
+                        if wide {
+                            CommandSupport::<Group12Var1>::add_u16(&mut native, n, i16);
+                            crate::command_set_add_g12_v1_u16(set, i16, f);
+                        } else {
+                            CommandSupport::<Group12Var1>::add_u8(&mut native, n, i8);
+                            crate::command_set_add_g12_v1_u8(set, i8, f);
+                        }
+                    }
+                    1 => {
+                        let v = r.u64() as i32;
+                        trace.push(format!("g41v1 wide{wide} {v}"));
+                        if wide {
+                            CommandSupport::<Group41Var1>::add_u16(&mut native, Group41Var1::new(v), i16);
+                            crate::command_set_add_g41_v1_u16(set, i16, v);
+                        } else {
+                            CommandSupport::<Group41Var1>::add_u8(&mut native, Group41Var1::new(v), i8);
+                            crate::command_set_add_g41_v1_u8(set, i8, v);
+                        }
+                    }
+                    2 => {
+                        let v = r.u16() as i16;
+                        trace.push(format!("g41v2 wide{wide} {v}"));
+                        if wide {
+                            CommandSupport::<Group41Var2>::add_u16(&mut native, Group41Var2::new(v), i16);
+                            crate::command_set_add_g41_v2_u16(set, i16, v);
+                        } else {
+                            CommandSupport::<Group41Var2>::add_u8(&mut native, Group41Var2::new(v), i8);
+                            crate::command_set_add_g41_v2_u8(set, i8, v);
+                        }
+                    }
+                    3 => {
+                        let v = f32::from_bits(r.u64() as u32);
+                        trace.push(format!("g41v3 wide{wide} {:08x}", v.to_bits()));
+                        if wide {
+                            CommandSupport::<Group41Var3>::add_u16(&mut native, Group41Var3::new(v), i16);
+                            crate::command_set_add_g41_v3_u16(set, i16, v);
+                        } else {
+                            CommandSupport::<Group41Var3>::add_u8(&mut native, Group41Var3::new(v), i8);
+                            crate::command_set_add_g41_v3_u8(set, i8, v);
+                        }
+                    }
+                    4 => {
+                        let v = some_f64(r);
+                        trace.push(format!("g41v4 wide{wide} {:016x}", v.to_bits()));
+                        if wide {
+                            CommandSupport::<Group41Var4>::add_u16(&mut native, Group41Var4::new(v), i16);
+                            crate::command_set_add_g41_v4_u16(set, i16, v);
+                        } else {
+                            CommandSupport::<Group41Var4>::add_u8(&mut native, Group41Var4::new(v), i8);
+                            crate::command_set_add_g41_v4_u8(set, i8, v);
+                        }
+                    }
+                    _ => {
+                        trace.push("finish_header".into());
+                        native.finish_header();
+                        crate::command_set_finish_header(set);
+                    }
+                }
+            }
+            let got = dnp3::verif::util::command_bytes(&(*set).clone().build());
+            let want = dnp3::verif::util::command_bytes(&native.build());
+            crate::command_set_destroy(set);
+            out::eval(1);
+            if got != want {
+                viol(
+                    a,
+                    "builder_mismatch",
+                    &format!("command_set|{}", trace.last().map(|t| t.split(' ').next().unwrap_or("")).unwrap_or("")),
+                    format!("command set {trace:?} encodes as {}; the native builder gives {}", hex(&got), hex(&want)),
+                );
+            } else {
+                out::count("builders_ok_command_set", 1);
+            }
+        }
+        // ---- dead-band requests
+        unsafe {
+            let req = crate::write_dead_band_request::write_dead_band_request_create();
+            let mut trace: Vec<String> = vec![];
+            // reference: consecutive items of one kind share a header
+            let mut want: Vec<DeadBandHeader> = vec![];
+            #[derive(PartialEq, Clone, Copy)]
+            enum K {
+                V1U8,
+                V1U16,
+                V2U8,
+                V2U16,
+                V3U8,
+                V3U16,
+            }
+            let mut cur: Option<(K, Vec<(u16, f64)>)> = None;
+            let mut flush = |cur: &mut Option<(K, Vec<(u16, f64)>)>, want: &mut Vec<DeadBandHeader>| {
+                if let Some((k, items)) = cur.take() {
+                    want.push(match k {
+                        K::V1U8 => DeadBandHeader::group34_var1_u8(items.iter().map(|(i, v)| (*i as u8, *v as u16)).collect()),
+                        K::V1U16 => DeadBandHeader::group34_var1_u16(items.iter().map(|(i, v)| (*i, *v as u16)).collect()),
+                        K::V2U8 => DeadBandHeader::group34_var2_u8(items.iter().map(|(i, v)| (*i as u8, *v as u32)).collect()),
+                        K::V2U16 => DeadBandHeader::group34_var2_u16(items.iter().map(|(i, v)| (*i, *v as u32)).collect()),
+                        K::V3U8 => DeadBandHeader::group34_var3_u8(items.iter().map(|(i, v)| (*i as u8, *v as f32)).collect()),
+                        K::V3U16 => DeadBandHeader::group34_var3_u16(items.iter().map(|(i, v)| (*i, *v as f32)).collect()),
+                    });
+                }
+            };
+            for _ in 0..r.range(1, 8) {
+                let k = *r.pick(&[K::V1U8, K::V1U16, K::V2U8, K::V2U16, K::V3U8, K::V3U16]);
+                if r.chance(1, 6) {
+                    trace.push("finish_header".into());
+                    flush(&mut cur, &mut want);
+                    crate::write_dead_band_request::write_dead_band_request_finish_header(req);
+                    continue;
+                }
+                let idx = match k {
+                    K::V1U8 | K::V2U8 | K::V3U8 => r.u8() as u16,
+                    _ => r.u16(),
+                };
+                let val: f64 = match k {
+                    K::V1U8 | K::V1U16 => r.u16() as f64,
+                    K::V2U8 | K::V2U16 => (r.u64() as u32) as f64,
+                    _ => (r.u16() as f32 * 0.25) as f64,
+                };
+                match &mut cur {
+                    Some((ck, items)) if *ck == k => items.push((idx, val)),
+                    _ => {
+                        flush(&mut cur, &mut want);
+                        cur = Some((k, vec![(idx, val)]));
+                    }
+                }
+                use crate::write_dead_band_request as w;
+                match k {
+                    K::V1U8 => w::write_dead_band_request_add_g34v1_u8(req, idx as u8, val as u16),
+                    K::V1U16 => w::write_dead_band_request_add_g34v1_u16(req, idx, val as u16),
+                    K::V2U8 => w::write_dead_band_request_add_g34v2_u8(req, idx as u8, val as u32),
+                    K::V2U16 => w::write_dead_band_request_add_g34v2_u16(req, idx, val as u32),
+                    K::V3U8 => w::write_dead_band_request_add_g34v3_u8(req, idx as u8, val as f32),
+                    K::V3U16 => w::write_dead_band_request_add_g34v3_u16(req, idx, val as f32),
+                }
+                trace.push(format!("add kind{} idx{idx} {val}", k as u8));
+            }
+            flush(&mut cur, &mut want);
+            let got = format!("{:?}", (*req).build());
+            let want = format!("{want:?}");
+            crate::write_dead_band_request::write_dead_band_request_destroy(req);
+            out::eval(1);
+            if got != want {
+                viol(
+                    a,
+                    "builder_mismatch",
+                    "dead_band_request",
+                    format!("dead-band request {trace:?} is {got}; the native constructors give {want}"),
+                );
+            } else {
+                out::count("builders_ok_dead_band_request", 1);
+            }
+        }
+    }
+}
